@@ -83,6 +83,10 @@ def replay_doc(ctx, doc, n, letters):
                 got = prs.cdist(X, Y)
                 if got.tolist() != doc["D"]:
                     viol("cdist/default/entry_wrong", f"cdist({X}, {Y}) = {got.tolist()} want {doc['D']}")
+            # default metric, keyword arguments forwarded to it (weights = (insertion, deletion, substitution))
+            got = prs.cdist(X, Y, dtype=np.int64, weights=tuple(w))
+            if got.tolist() != doc["D"]:
+                viol("cdist/default_kwargs/entry_wrong", f"cdist({X}, {Y}, weights={tuple(w)}) = {got.tolist()} want {doc['D']}")
         else:
             ctx.case(dict(fn="calc_pdist_vector/pdist", X=X, w=w, container=cont), nontrivial=len(X) > 2 and w[0] != w[1])
             if doc["kind"] == "pdist":
@@ -97,6 +101,9 @@ def replay_doc(ctx, doc, n, letters):
                     got = prs.pdist(X)
                     if got.tolist() != doc["vec"]:
                         viol("pdist/default/layout_or_entry_wrong", f"pdist({X}) = {got.tolist()} want {doc['vec']}")
+                got = prs.pdist(X, dtype=np.int64, weights=tuple(w))
+                if got.tolist() != doc["vec"]:
+                    viol("pdist/default_kwargs/layout_or_entry_wrong", f"pdist({X}, weights={tuple(w)}) = {got.tolist()} want {doc['vec']}")
     except Exception as e:     # noqa: BLE001
         viol(f"{doc['kind']}/raised", f"{doc['kind']} case X={X} Y={Y} w={w} raised {type(e).__name__}: {e}")
 
